@@ -1,5 +1,6 @@
 import OSProofs.Props.C08
 import OSProofs.Props.C08b
+import OSProofs.Props.C08c
 #print axioms OS.C08_sqrt_arg_nonneg
 #print axioms OS.C08_ciq_pos
 #print axioms OS.C08_plC_pos
@@ -27,3 +28,4 @@ import OSProofs.Props.C08b
 #print axioms OS.C08_drawMargin_shape
 #print axioms OS.C08_applyTeam_shape
 #print axioms OS.C08_pairDenom_shape
+#print axioms OS.C08_full_models_discarded_sites
